@@ -45,6 +45,18 @@ Theorem C19_strip_value_check_zero : forall g g' prog arrays m e,
 Proof. exact strip_value_cz. Qed.
 Print Assumptions C19_strip_value_check_zero.
 
+(* strip_value_total -- the code after fix 150ba09 (instance 3 of the model: divisor
+   factor + (factor == 0), exponents in R + {-inf}, log10 0 = -inf).  For EVERY well-formed program
+   of homogeneous kernels and ALL inputs -- zero intermediates included, no hypothesis on the
+   factors -- the stripped run's (m, e) denotes the plain result, with 10^(-inf) * m = 0. *)
+Theorem C19_strip_value_total : forall g' prog arrays m e,
+  Forall homog_instr prog ->
+  wf_prog R prog (seq 0 (length arrays)) = true ->
+  T_core true false prog arrays = Done m (Some e) ->
+  R_core g' false false prog arrays = Done (R_scale (p10 e) m) None.
+Proof. exact strip_value_total. Qed.
+Print Assumptions C19_strip_value_total.
+
 Theorem C19_guards_ok : guard_ok (fun f => f) /\ guard_ok rguard_fix.
 Proof. exact (conj guard_ok_id guard_ok_fix). Qed.
 Print Assumptions C19_guards_ok.
